@@ -136,6 +136,8 @@ impl Method {
     #[verifier::external_body]
     pub exec const OPTIONS: Method ensures Self::OPTIONS.bytes() == "OPTIONS".spec_bytes() { Method { x: 0 } }
     #[verifier::external_body]
+    pub exec const GET: Method ensures Self::GET.bytes() == "GET".spec_bytes() { Method { x: 2 } }
+    #[verifier::external_body]
     pub exec const CONNECT: Method ensures Self::CONNECT.bytes() == "CONNECT".spec_bytes() { Method { x: 1 } }
     #[verifier::external_body]
     pub fn from_bytes(src: &[u8]) -> (r: Result<Method, InvalidMethod>)
@@ -146,6 +148,9 @@ impl Method {
     pub fn as_str(&self) -> (r: &str) ensures r.spec_bytes() == self.bytes() { unimplemented!() }
 }
 // a Method always holds a valid method token
+impl Clone for Method {
+    #[verifier::external_body] fn clone(&self) -> (r: Self) ensures r == *self { unimplemented!() }
+}
 impl PartialEq for Method {
     #[verifier::external_body]
     fn eq(&self, other: &Method) -> (r: bool) ensures r == (self.bytes() == other.bytes()) { unimplemented!() }
@@ -156,6 +161,8 @@ impl vstd::std_specs::cmp::PartialEqSpecImpl for Method {
 }
 impl StatusCode {
     pub uninterp spec fn bytes(&self) -> Seq<u8>;      // == as_str() bytes (three digits)
+    #[verifier::external_body]
+    pub exec const OK: StatusCode ensures Self::OK.bytes() == "200".spec_bytes() { StatusCode { x: 0 } }
     #[verifier::external_body]
     pub fn from_bytes(src: &[u8]) -> (r: Result<StatusCode, InvalidStatusCode>)
         ensures r is Ok <==> spec_is_status(src@),
@@ -331,13 +338,15 @@ impl HeaderMap {
     pub fn with_capacity(capacity: usize) -> (r: HeaderMap)
         requires capacity + capacity / 3 <= HEADER_MAP_MAX_SIZE,
         ensures r.entries().len() == 0, r.keys_len() == 0,
+            capacity + capacity / 3 <= HEADER_MAP_MAX_SIZE,     // it returned, so it did not panic
     { unimplemented!() }
     // PANICS ("size overflows MAX_SIZE") when the table would have to grow beyond 32768 slots, i.e. when it already
     // holds 24576 distinct names (`try_reserve_one` runs before the lookup, so even for an existing name)
     #[verifier::external_body]
     pub fn append(&mut self, key: HeaderName, value: HeaderValue) -> (r: bool)
         requires old(self).keys_len() < 24576,
-        ensures final(self).entries() == spec_hm_append(old(self).entries(), key.bytes(), value.bytes()),
+        ensures old(self).keys_len() < 24576,                   // it returned, so it did not panic
+            final(self).entries() == spec_hm_append(old(self).entries(), key.bytes(), value.bytes()),
             final(self).keys_len() == old(self).keys_len() + (if r { 0nat } else { 1nat }),
             r == spec_hm_has(old(self).entries(), key.bytes()),
     { unimplemented!() }
